@@ -2332,6 +2332,10 @@ func (p *point) Type() FieldType {
 
 // StringValue returns the string value of the current field.
 func (p *point) StringValue() string {
+	if len(p.it.valueBuf) < 2 {
+		// not a quoted string (a lone quote from an unvalidated binary point)
+		return ""
+	}
 	return unescapeStringField(string(p.it.valueBuf[1 : len(p.it.valueBuf)-1]))
 }
 
